@@ -36,6 +36,7 @@ fn oracles() -> Vec<(&'static str, Enumerate, Check)> {
         ("c17_count", o_listops::enum_count, o_listops::check_count),
         ("c17_filter", o_listops::enum_filter, o_listops::check_filter),
         ("c17_terms", o_listops::enum_terms, o_listops::check_terms),
+        ("c17_functor", o_listops::enum_functor, o_listops::check_functor),
         ("c17_join", o_listops::enum_join, o_listops::check_join),
         ("c16_append", o_listops::enum_append, o_listops::check_append),
         ("c22_make_query", o_globals::enum_make_query, o_globals::check_make_query),
